@@ -7,7 +7,7 @@ from vlib import readout as ro
 ID = 'C13'
 LEVEL = 'exploration'
 RULE = ('(a) relations u(state, out\') from a formula menu over inputs of all '
-        'three sign classes and Booleans, outputs integer / Boolean / both / '
+        'three sign classes and Booleans (and 11/12-bit integers), outputs integer / Boolean / both / '
         'ignored, plus relations given as explicit tables, plus ALL 255 relations '
         'between x:(-1,1) and a Boolean output and (quick: 2048 spread; '
         'thorough: all 65535) between x:(-1,1) and y\':(-1,1): '
@@ -32,6 +32,9 @@ DECLS = {
     'M': dict(x=(-3, -1), y=(0, 6)),
     'B': dict(x=(0, 2), p='bool', y=(-1, 1), q='bool'),
     'W': dict(x=(-5, 7), y=(0, 20)),
+    # bitfields of 11 and 12 bits (bit names with two-digit indices)
+    'X': dict(x=(0, 2047), y=(0, 2047)),
+    'Y': dict(x=(-1500, 1500), y=(-1500, 1500)),
 }
 # (decl, formula, out_vars)
 RELATIONS = [
@@ -66,6 +69,10 @@ RELATIONS = [
     ('W', "y' = x + 8", ["y'"]), ('W', "(x < 0) => (y' = 0 - x)", ["y'"]),
     ('W', "x' = x /\\ y' = y", ["x'", "y'"]),
     ('W', "y' = ite(x > y, x, y)", ["y'"]),
+    ('X', "(y' = x) /\\ (y = 0)", ["y'"]),
+    ('X', "(y' = 2047 - x) /\\ (y = 3)", ["y'"]),
+    ('Y', "(y' = 0 - x) /\\ (y = 1)", ["y'"]),
+    ('Y', "(y' = x) /\\ (x' = y) /\\ (y = -1024)", ["x'", "y'"]),
 ]
 # explicit tables: (decl, vars, list of rows, outs)
 TABLES = [
@@ -82,7 +89,11 @@ TABLES = [
 def shards(tier, seed):
     out = [dict(kind='rel', i=i, backend=be)
            for i in range(len(RELATIONS) + len(TABLES))
-           for be in ('cudd', 'autoref')]
+           for be in ('cudd', 'autoref')
+           # the 11/12-bit relations on the C back end only (minutes in the
+           # pure-Python manager)
+           if not (be == 'autoref' and i < len(RELATIONS) and
+                   RELATIONS[i][0] in ('X', 'Y'))]
     for lo in range(0, 256, 16):
         for be in ('cudd', 'autoref'):
             out.append(dict(kind='roots', lo=lo, hi=lo + 16, backend=be))
@@ -167,10 +178,8 @@ def run_rel(case, acc):
         by_state.setdefault(r[:ns_], set()).add(r[ns_:])
     nonfun = any(len(v) > 1 for v in by_state.values())
     n = 0
-    for st in itertools.product(*[ro.rep_range(decl[v.rstrip("'")])
-                                  for v in state_vars]):
-        if st not in by_state:
-            continue
+    # every state (of the full bit ranges) that has an admissible output
+    for st in sorted(by_state, key=repr):
         n += 1
         state = dict(zip(state_vars, st))
         neg_in = any((not isinstance(v, bool)) and v < 0 for v in st)
